@@ -19,7 +19,7 @@ RULE = ('Hypothesis cases: receiver / refund / outsider seeds, preimages of leng
         'RFC 8032 reference. non-trivial = a boundary timestamp, a cross pairing, a wrong key / preimage, or a tweak; '
         'distinct by case parameters.')
 ASSUMPTIONS = ['clock pinned at build time and at verification time through tools.time / functions.time',
-               'tweak scalars have bit 255 clear (libsodium ignores that bit in base multiplication but not in scalar addition)',
+               'the tweak point of a scalar is derive_point(t) as documented: libsodium ignores bit 255 of the scalar there',
                'hash commitments are collision-free except where the predicate evaluates the truncated digest itself']
 
 sha = lambda b: hashlib.sha256(b).digest()  # noqa: E731
@@ -42,6 +42,10 @@ def tweak_of(case):
     raw = sha(b'tw' + case['tag'])
     if k == 'rand':
         t = raw[:31] + bytes([raw[31] & 0x7f])
+    elif k == 'raw':
+        t = raw                                            # any 32 bytes
+    elif k == 'topbit':
+        t = raw[:31] + bytes([raw[31] | 0x80])             # bit 255 set: ignored by the point derivation
     elif k == 'clamped':
         t = E.clamp(raw, True)
     elif k == 'one':
@@ -51,6 +55,12 @@ def tweak_of(case):
     else:
         t = (E.L + 1).to_bytes(32, 'little')
     return t
+
+
+def _tweak_point(tw):
+    """derive_point(t) as the library documents it: the base multiplication ignores bit 255 of the scalar"""
+    t = int.from_bytes(tw[:31] + bytes([tw[31] & 0x7f]), 'little') % E.L
+    return E.enc(E.mul(t, E.G))
 
 
 def build(case):
@@ -77,7 +87,7 @@ def build(case):
             lock = T.make_ptlc_lock(rpk, fpk, timeout=timeout, sigflags=fl)
         else:
             tw = tweak_of(case)
-            Tp = E.enc(E.mul(E.scalar_int(tw) % E.L, E.G))
+            Tp = _tweak_point(tw)
             lock = T.make_ptlc_lock(rpk, fpk, tweak_point=Tp, timeout=timeout, sigflags=fl)
     finally:
         env.unpin_clock()
@@ -99,7 +109,7 @@ def build(case):
     truth = {'rpk': rpk, 'fpk': fpk, 'deadline': int(case['build_clock']) + timeout}
     if case['lock'] == 'ptlc-tweak':
         tw = tweak_of(case)
-        truth['rpk'] = E.enc(E.add(E.dec(rpk), E.mul(E.scalar_int(tw) % E.L, E.G)))
+        truth['rpk'] = E.enc(E.add(E.dec(rpk), E.dec(_tweak_point(tw))))
     return lock.bytes, wit.bytes, truth
 
 
@@ -143,7 +153,14 @@ def ref_accept(case, truth, st_):
 
 
 def evaluate(case):
-    lock, wit, truth = build(case)
+    try:
+        lock, wit, truth = build(case)
+    except BaseException as e:  # noqa
+        if isinstance(e, (KeyboardInterrupt, SystemExit)):
+            raise
+        # every parameter combination the generator draws is inside the documented domain of the builders
+        return [('tlc/%s/builder-raises-%s' % (case['lock'], type(e).__name__), '%s (hash_size %r, witness %s)' % (
+            str(e)[:80], case.get('hash_size'), case['witness']))], {'expected': None, 'deadline': 0, 'matched': False}
     prog = R.decode(wit)
     pushes = (C['OP_PUSH0'], C['OP_PUSH1'], C['OP_PUSH2'], C['OP_TRUE'], C['OP_FALSE'])
     if not all(n[0] == 'i' and n[1] in pushes for n in prog):
@@ -207,7 +224,7 @@ def check_case(case):
     if case.get('check') != 'tlc':
         raise ValueError('check')
     if case['lock'] not in LOCKS or case['witness'] not in WITS or not 1 <= len(case['preimage']) <= 64 or \
-            not 1 <= case['hash_size'] <= 64 or min(case['t'], case['now'], case['build_clock'], case['timeout']) < 0 or \
+            not 1 <= case['hash_size'] <= 255 or min(case['t'], case['now'], case['build_clock'], case['timeout']) < 0 or \
             case['signer'] not in ('recv', 'refund', 'outsider') or case['flag'] == 0xff:
         raise ValueError('domain')
     return evaluate(case)[0]
@@ -231,18 +248,15 @@ def tlc_case(draw):
             'signer': draw(st.sampled_from(['recv', 'recv', 'refund', 'refund', 'outsider'])),
             'preimage': draw(st.one_of(st.binary(min_size=16, max_size=32), st.binary(min_size=1, max_size=64))),
             'wpreimage': draw(st.sampled_from(['right', 'right', 'wrong', 'one'])),
-            'hash_size': draw(st.one_of(st.sampled_from([20, 20, 1, 2, 32, 64]), st.integers(1, 64))),
+            'hash_size': draw(st.one_of(st.sampled_from([20, 20, 1, 2, 32, 64, 127, 128, 200, 255]), st.integers(1, 64))),
             'timeout': timeout, 'build_clock': build_clock, 't': t, 'now': now, 'thr': thr,
-            'tweak_kind': draw(st.sampled_from(['rand', 'clamped', 'one', 'Lm1', 'Lp1'])),
+            'tweak_kind': draw(st.sampled_from(['rand', 'raw', 'topbit', 'clamped', 'one', 'Lm1', 'Lp1'])),
             'fields': fields, 'allowed': allowed, 'flag': draw(st.sampled_from([0, 0, allowed, allowed & 1, 0x02]))}
 
 
 def task_main(ctx):
     def one(c):
-        try:
-            fails, info = evaluate(c)
-        except ValueError:
-            return
+        fails, info = evaluate(c)
         if info.get('skip'):
             ctx.count('skipped')
             return
